@@ -16,9 +16,41 @@ deriving Repr, DecidableEq
 inductive UriErr | parse | idMismatch | missingHost
 deriving Repr, DecidableEq
 
-/-- Go `net.JoinHostPort` -/
-def joinHostPort (h p : String) : String :=
-  if h.contains ':' then "[" ++ h ++ "]:" ++ p else h ++ ":" ++ p
+/-- Go `net.JoinHostPort` (on character lists, for the proofs) -/
+def joinHostPortL (h p : List Char) : List Char :=
+  if ':' ∈ h then '[' :: h ++ ']' :: ':' :: p else h ++ ':' :: p
+
+def joinHostPort (h p : String) : String := String.ofList (joinHostPortL h.toList p.toList)
+
+/-- split at the last colon -/
+def splitLastColon : List Char → Option (List Char × List Char)
+  | [] => none
+  | c :: t =>
+    match splitLastColon t with
+    | some (h, p) => some (c :: h, p)
+    | none => if c = ':' then some ([], t) else none
+
+/-- the characters before the first `]` -/
+def beforeBracket : List Char → List Char
+  | [] => []
+  | c :: t => if c = ']' then [] else c :: beforeBracket t
+
+/-- the suffix starting at the first `]` -/
+def fromBracket : List Char → List Char
+  | [] => []
+  | c :: t => if c = ']' then c :: t else fromBracket t
+
+/-- Go `net.SplitHostPort` -/
+def splitHostPortL (s : List Char) : Option (List Char × List Char) :=
+  match s with
+  | '[' :: rest =>
+    match fromBracket rest with
+    | ']' :: ':' :: port => if ':' ∈ port then none else some (beforeBracket rest, port)
+    | _ => none
+  | _ =>
+    match splitLastColon s with
+    | some (h, p) => if ':' ∈ h then none else some (h, p)
+    | none => none
 
 /-- the host the pool advertises: the override's unless empty/unspecified, else the connection's source -/
 def chosenHost (o : Option Override) (src : String) : String :=
@@ -39,15 +71,18 @@ deriving Repr, DecidableEq
 
 def Advertised.render (a : Advertised) : String := "enode://" ++ a.id ++ "@" ++ joinHostPort a.host a.port
 
+/-- the override names a user other than the authenticated node id -/
+def usernameMismatch (o : Option Override) (id : String) : Bool :=
+  match o with
+  | some ov => decide (ov.username ≠ "" ∧ ov.username ≠ id)
+  | none => false
+
+def hostMissing (host : String) : Bool := decide (host = "" ∨ host = "::" ∨ host = "[::]")
+
 /-- `normalizeNodeURI(nodeURI, nodeID, defaultHost, defaultPort)` -/
 def normalizeNodeURI (o : Option Override) (id src defPort : String) : Except UriErr Advertised :=
-  let bad : Bool := match o with
-    | some ov => decide (ov.username ≠ "" ∧ ov.username ≠ id)
-    | none => false
-  if bad then .error .idMismatch
-  else
-    let host := chosenHost o src
-    if host = "" ∨ host = "::" ∨ host = "[::]" then .error .missingHost
-    else .ok { id := id, host := host, port := chosenPort o defPort }
+  if usernameMismatch o id then .error .idMismatch
+  else if hostMissing (chosenHost o src) then .error .missingHost
+  else .ok { id := id, host := chosenHost o src, port := chosenPort o defPort }
 
 end Vipnode
